@@ -21,7 +21,7 @@ import tlaval
 
 MANIFEST = dict(
     technique='TLA+ I-spec Neigh (link address cache ring + resolution goroutines; TLC exhaustive, all races of lookup / add / timeout / expiry / eviction) + P-spec TraceNeigh validating link-tap and sockets-API observations of the real stack (own decoder; time used only as lower bound); scenario orders partly derived from TLC simulation of the I-spec',
-    text='TLC explores every interleaving of two concurrent lookups, replies, overwrites, retry timeouts, expiry and ring eviction on a 2..3-entry ring with 3 addresses: a hit returns the link address most recently added for exactly that key and never an expired one, waiters are always notified when their entry leaves incomplete or is evicted, changeState never takes a transition on which the Go code panics, a resolution sends at most 3 requests. On the real stack TLC decides for every trace: an injected ARP request / neighbour solicitation is answered exactly once iff the target is an own address (sender fields = own MAC + target, target fields and link destination = requester), malformed ones never; after a reply or a request addressed to the stack traffic for that neighbour goes to the learned MAC without a new request; no packet for an unresolved next hop (also via a gateway) is emitted; requests are broadcast, at least 0.9 s apart, at most 3 per resolution; the waiting Write / Connect / GetLinkAddress proceeds with the learned MAC or fails with the no-link-address error only after the third request plus one more timeout; mappings survive exactly until 512 newer entries exist and are never used for another key after ring wrap, nor 60 s after they were learned (thorough tier: one real 61 s scenario).',
+    text='TLC explores every interleaving of two concurrent lookups, replies, overwrites, retry timeouts, expiry and ring eviction on a 2..3-entry ring with 3 addresses: a hit returns the link address most recently added for exactly that key and never an expired one, waiters are always notified when their entry leaves incomplete or is evicted, changeState never takes a transition on which the Go code panics, a resolution sends at most 3 requests. On the real stack TLC decides for every trace: an injected ARP request / neighbour solicitation is answered exactly once iff the target is an own address (sender fields = own MAC + target, target fields and link destination = requester), malformed ones never; after a reply or a request addressed to the stack traffic for that neighbour goes to the learned MAC without a new request; no packet for an unresolved next hop (also via a gateway) is emitted; requests are broadcast, at least 0.9 s apart, at most 3 per resolution; the waiting Write / Connect / GetLinkAddress proceeds with the learned MAC or fails with the no-link-address error only after the third request plus one more timeout; mappings (also ones that overwrote an older mapping or a failed resolution of the same address, whose stale ring slot is recycled earlier) survive exactly until 512 newer entries exist and are never used for another key after ring wrap, nor 60 s after they were learned (thorough tier: one real 61 s scenario).',
     design='5 C12',
     note='Only lower bounds on time (a give-up after 20 s of real time produces a ret event the spec rejects, subject to the reproduce-once rule). Learning from requests NOT addressed to the stack is neither required nor forbidden by the statement: the P-spec allows both. Connected sockets / TCP connections keep the link address their route resolved once (route-level caching): scenarios do not overwrite a mapping while such a socket is in use. The stale-timer race of the I-spec (NoEarlyFail, see Neigh.tla) needs an eviction or expiry inside the microsecond window between a timer firing and checkLinkRequest taking the lock; it is reported in the evidence, not driven on the real code. Entry expiry on real code is exercised only in the thorough tier (61 s).')
 
@@ -152,7 +152,7 @@ KINDS = ['write', 'write', 'cwrite', 'connect', 'getlink']
 def gen_scenarios(ctx, n):
     rng = ctx.rng
     out = []
-    fams = ['answer', 'resolve', 'fail', 'overwrite', 'overflow', 'gateway', 'race', 'mixed6']
+    fams = ['answer', 'resolve', 'fail', 'overwrite', 'overflow', 'gateway', 'race', 'mixed6', 'rewrap']
     for i in range(n):
         fam = fams[i % len(fams)]
         v = 6 if (fam == 'mixed6' or (fam in ('resolve', 'fail', 'overwrite', 'race', 'answer') and rng.random() < 0.3)) else 4
@@ -241,6 +241,33 @@ def gen_scenarios(ctx, n):
                 s.op(learn_op(rng, 4, A(k), mac(0x110 + k)))
                 s.wait(i_)
                 s.sync('getlink', A(k))
+        elif fam == 'rewrap':
+            # an address is overwritten (its new mapping lives in a NEW ring slot, the old slot stays behind, stale) and the
+            # ring then wraps onto the STALE slot: recycling it must not touch the live mapping, which is newer than
+            # everything evicted so far.  Slots: A0/m1 at s, k fillers, A0/m2 at s+k+1, j fillers: slot s is recycled as
+            # soon as j >= 512-k, the live entry only after 512 newer ones (j <= 511 keeps it).
+            k = rng.choice([1, 1, 2, 5, 40, 200])
+            j = rng.randrange(512 - k, 512)
+            s.op(dict(op='fill', n=rng.randrange(0, 40), base=0))           # shift the ring position
+            if rng.random() < 0.3:
+                # the stale slot holds a FAILED resolution instead of an older mapping
+                ids = [s.bg(rng.choice(['write', 'getlink']), A(0))]
+                s.wait(*ids)
+            else:
+                s.op(learn_op(rng, 4, A(0), mac(0x100)))
+                if rng.random() < 0.5:
+                    s.sync(rng.choice(['write', 'getlink']), A(0))
+            s.op(dict(op='fill', n=k, base=1000))
+            s.op(learn_op(rng, 4, A(0), mac(0x101)))
+            s.op(dict(op='fill', n=j, base=2000))
+            for _ in range(rng.choice([1, 2])):
+                s.sync(rng.choice(['write', 'getlink', 'connect']), A(0))      # still known: right MAC, no new request
+            # now really push it out (512 newer entries) and resolve again
+            s.op(dict(op='fill', n=512 - j + rng.randrange(0, 3), base=3000))
+            i_ = s.bg(rng.choice(['write', 'getlink']), A(0))
+            s.op(dict(op='waitreq', h=A(0), n=1, ms=2000))
+            s.op(learn_op(rng, 4, A(0), mac(0x102)))
+            s.wait(i_)
         elif fam == 'gateway':
             s = Sc(fam, routes=GW_ROUTES)
             dsts = ['192.168.5.5', '8.8.8.8', '10.0.1.9']
@@ -426,7 +453,7 @@ def run(ctx):
                 box.append(e)
         st = threading.Thread(target=sim_thread)
         st.start()
-        n = ctx.pick(56, 960)
+        n = ctx.pick(63, 963)
         scs = gen_scenarios(ctx, n)
         if ctx.thorough():
             scs.insert(0, expiry_scenario(ctx.rng))      # 70 s of real time: started first, runs beside all the others
